@@ -70,15 +70,9 @@ pub fn complete(
             }
         } else if let Some((flag, value)) = arg.to_long() {
             if let Ok(flag) = flag {
-                let opt = current_cmd.get_arguments().find(|a| {
-                    let longs = a.get_long_and_visible_aliases();
-                    let is_find = longs.map(|v| {
-                        let mut iter = v.into_iter();
-                        let s = iter.find(|s| *s == flag);
-                        s.is_some()
-                    });
-                    is_find.unwrap_or(false)
-                });
+                let opt = current_cmd
+                    .get_arguments()
+                    .find(|a| long_and_visible_aliases(a).contains(&flag));
 
                 if let Some(opt) = opt {
                     if opt.get_num_args().expect("built").takes_values() && value.is_none() {
@@ -470,14 +464,20 @@ fn longs_and_visible_aliases(p: &clap::Command) -> Vec<CompletionCandidate> {
     debug!("longs: name={}", p.get_name());
 
     p.get_arguments()
-        .filter_map(|a| {
-            a.get_long_and_visible_aliases().map(|longs| {
-                longs
-                    .into_iter()
-                    .map(|s| populate_arg_candidate(CompletionCandidate::new(format!("--{s}")), a))
-            })
+        .flat_map(|a| {
+            long_and_visible_aliases(a)
+                .into_iter()
+                .map(move |s| populate_arg_candidate(CompletionCandidate::new(format!("--{s}")), a))
         })
-        .flatten()
+        .collect()
+}
+
+/// The long option name of an argument and its visible aliases, also when the argument has
+/// visible aliases but no long name of its own (see `short_and_visible_aliases`).
+fn long_and_visible_aliases(a: &clap::Arg) -> Vec<&str> {
+    a.get_long()
+        .into_iter()
+        .chain(a.get_visible_aliases().unwrap_or_default())
         .collect()
 }
 
@@ -503,18 +503,26 @@ fn shorts_and_visible_aliases(p: &clap::Command) -> Vec<CompletionCandidate> {
     debug!("shorts: name={}", p.get_name());
 
     p.get_arguments()
-        .filter_map(|a| {
-            a.get_short_and_visible_aliases().map(|shorts| {
-                shorts.into_iter().map(|s| {
-                    populate_arg_candidate(CompletionCandidate::new(s.to_string()), a).help(
-                        a.get_help()
-                            .cloned()
-                            .or_else(|| a.get_long().map(|long| format!("--{long}").into())),
-                    )
-                })
+        .flat_map(|a| {
+            short_and_visible_aliases(a).into_iter().map(move |s| {
+                populate_arg_candidate(CompletionCandidate::new(s.to_string()), a).help(
+                    a.get_help()
+                        .cloned()
+                        .or_else(|| a.get_long().map(|long| format!("--{long}").into())),
+                )
             })
         })
-        .flatten()
+        .collect()
+}
+
+/// The short option name of an argument and its visible short aliases.
+///
+/// Unlike `Arg::get_short_and_visible_aliases` this also covers an argument that has visible short
+/// aliases but no short name of its own: the parser accepts those spellings all the same.
+fn short_and_visible_aliases(a: &clap::Arg) -> Vec<char> {
+    a.get_short()
+        .into_iter()
+        .chain(a.get_visible_short_aliases().unwrap_or_default())
         .collect()
 }
 
@@ -592,15 +600,9 @@ fn parse_shortflags<'c, 's>(
         match short.next_flag() {
             Some(Ok(opt)) => {
                 leading_flags.push(opt);
-                let opt = cmd.get_arguments().find(|a| {
-                    let shorts = a.get_short_and_visible_aliases();
-                    let is_find = shorts.map(|v| {
-                        let mut iter = v.into_iter();
-                        let c = iter.find(|c| *c == opt);
-                        c.is_some()
-                    });
-                    is_find.unwrap_or(false)
-                });
+                let opt = cmd
+                    .get_arguments()
+                    .find(|a| short_and_visible_aliases(a).contains(&opt));
                 if opt
                     .map(|o| o.get_num_args().expect("built").takes_values())
                     .unwrap_or(false)
